@@ -516,7 +516,7 @@ Inductive op :=
 | OInsertAbove (t : str)
 | OInsertBelow (t : str)
 | ODelete
-| OCustom (rawIndex : Z) (d : descr).
+| OCustom (rawIndex : Z).   (* Custom with a fixer that calls Describef(rawIndex, "Clearing executable bits") *)
 
 Definition do_op (o : opts) (p : op) (l : line) : result line :=
   match p with
@@ -525,7 +525,7 @@ Definition do_op (o : opts) (p : op) (l : line) : result line :=
   | OInsertAbove t => insert_above o t l
   | OInsertBelow t => insert_below o t l
   | ODelete => delete o l
-  | OCustom ri d => do (l', _) <- custom o ri d l; Ok l'
+  | OCustom ri => do (l', _) <- custom o ri DChmod l; Ok l'
   end.
 
 Fixpoint do_ops (o : opts) (ps : list op) (l : line) : result line :=
